@@ -5,6 +5,7 @@ Property theorems only.
 -/
 import DeadpoolVerif.Model.RedisRecycle
 import DeadpoolVerif.Props.C04
+import DeadpoolVerif.Lemmas.SyncPools
 
 namespace DeadpoolVerif
 namespace RR
@@ -67,6 +68,17 @@ theorem C17_reuse_requires_recycle_ok (s s' : State) (i : Nat) (t : Timeouts) (k
   · cases hpc; exact ⟨hoc, hk⟩
   · cases hpc
   · cases hpc
+
+/-- **C17 (never reissued, all histories).** Let `unsync id n` say that connection `id`, at the
+recycle after its `n`-th hand-out, does not get the echo of the fresh ping (error, stale or
+other value, silence, disconnect).  In every history of the pool in which `Manager::recycle`
+is answered `Ok` only on the right echo — `C17_recycle_ok_iff` — no hand-out is the `(n+1)`-th
+hand-out of such a connection. -/
+theorem C17_unsynchronised_never_reissued (cfg : Cfg) (unsync : SP.Spoiled) (acts : List Action)
+    (h : SP.Honest unsync (init cfg) acts) (i : Nat) (o : Obj)
+    (ho : Ev.handout i o ∈ (run (init cfg) acts).log) (hn : 1 < o.handouts) :
+    unsync o.id (o.handouts - 1) = false :=
+  ((SP.J.init unsync cfg).run h).log _ ho hn
 
 /-! Non-vacuity -/
 example : (recycle { pingNumber := 7 } { watched := true } (.echo (some 7))).2.2 = true ∧
